@@ -12,7 +12,9 @@
 (* bit pattern in a word: 1 sign bit, EB exponent bits, MB mantissa bits.  *)
 (*                                                                         *)
 (* The spec defines: wrap-around + - * modulo 2^W, signed and unsigned     *)
-(* order, exact division (quotient and whether it is exact), the           *)
+(* order, exact division of two integers BY THEIR VALUES (sign and         *)
+(* magnitude of the quotient, whether it divides, which integer types can  *)
+(* hold it -- also for an int divided by a uint and for min / -1), the     *)
 (* conversion int/uint/chr -> float (round to nearest, ties to even),      *)
 (* order and equality of floats (-0 = +0, NaN unordered), the dispatch on  *)
 (* the operand types, the operands and conversion used and the type of the *)
@@ -111,15 +113,7 @@ UDivMod(x, y) ==                            \* y # Zero: x = q*y + r, r < y
     IN IF n <= 0 THEN [q |-> Zero, r |-> x]
        ELSE DivFrom(x, y, n - 1, Zero, ShR(x, n))        \* x div 2^n < 2^HighBit(y) <= y
 
-(* exact division of integers: quotient word, whether it is exact, and     *)
-(* whether the exact quotient is not representable (min / -1)              *)
-UDiv(x, y) == LET d == UDivMod(x, y) IN [q |-> d.q, exact |-> d.r = Zero, ovf |-> FALSE]
-Abs(x) == IF Sign(x) = 1 THEN Neg(x) ELSE x       \* as unsigned magnitude
-SDiv(x, y) ==
-    LET d == UDivMod(Abs(x), Abs(y))
-        neg == Sign(x) # Sign(y)
-    IN [q |-> IF neg THEN Neg(d.q) ELSE d.q, exact |-> d.r = Zero,
-        ovf |-> ~neg /\ Sign(d.q) = 1]
+MinWord == [i \in Limbs |-> IF i = NL THEN HALF ELSE 0]      \* 2^(W-1)
 
 (* the low half of a word, sign-extended: how a rune is held in a word *)
 HalfExt(x) ==
@@ -178,15 +172,18 @@ AsFloat(a) ==
 IsZeroNum(a) == IF a[1] = "flt" THEN IsFZero(a[2]) ELSE a[2] = Zero
 IsNaNNum(a)  == a[1] = "flt" /\ IsNaN(a[2])
 
-(* what the statement fixes for a comparison of these types:               *)
+(* what the statement fixes for a comparison of these types ("every        *)
+(* combination of numeric types"):                                         *)
 (*  exact: same type -- the mathematical order of the values               *)
 (*  float: int or chr against flt -- converted to float first              *)
-(*  laws : int against chr -- only trichotomy and (< a b) = (> b a)        *)
-(*  none : uint against another type -- the statement is silent            *)
+(*  laws : every other combination (int against chr, uint against int,     *)
+(*         chr or flt) -- which of < == > holds is not said, but exactly   *)
+(*         one of them does, and (< a b) = (> b a): an error is none of    *)
+(*         them (checked on the recorded results of the pair, NumTrace)    *)
+(* and, in EVERY combination, NaN is unordered against everything.         *)
 CmpClass(ta, tb) ==
     IF ta = tb THEN "exact"
-    ELSE IF "uint" \in {ta, tb} THEN "none"
-    ELSE IF "flt" \in {ta, tb} THEN "float"
+    ELSE IF "flt" \in {ta, tb} /\ "uint" \notin {ta, tb} THEN "float"
     ELSE "laws"
 
 Three(a, b) ==
@@ -207,11 +204,14 @@ Holds(op, r) ==
 (*  int / uint: two int64 / two uint64 -- wrap-around, exact division      *)
 (*  chr  : chr with chr or int -- integer arithmetic on the rune values;   *)
 (*         the statement does not fix whether the result is int or chr     *)
-(*  none : uint with int or chr -- the statement is silent                 *)
+(*  mixed: uint with int or chr -- integer arithmetic on the VALUES (the   *)
+(*         int64 read as signed, the uint64 as unsigned); the statement    *)
+(*         does not fix whether the result is int or uint.  + - * give the *)
+(*         same word under both readings; the quotient does not.           *)
 AriClass(ta, tb) ==
     IF "flt" \in {ta, tb} THEN "float"
     ELSE IF ta = "uint" /\ tb = "uint" THEN "uint"
-    ELSE IF "uint" \in {ta, tb} THEN "none"
+    ELSE IF "uint" \in {ta, tb} THEN "mixed"
     ELSE IF ta = "int" /\ tb = "int" THEN "int"
     ELSE "chr"
 
@@ -225,6 +225,35 @@ IntRes(cl, w) ==
     CASE cl = "int"  -> {<<"int", w>>}
       [] cl = "uint" -> {<<"uint", w>>}
       [] cl = "chr"  -> {<<"int", w>>, <<"chr", HalfExt(w)>>}
+      [] cl = "mixed" -> {<<"int", w>>, <<"uint", w>>}
+
+(* division of two integers by their values.  The value of <<t, w>> is w   *)
+(* read as unsigned for uint and as two's complement otherwise; the exact  *)
+(* quotient is (-1)^neg * mag with mag an unsigned word.                   *)
+IsNegNum(a) == a[1] # "uint" /\ Sign(a[2]) = 1
+MagOf(a)    == IF IsNegNum(a) THEN Neg(a[2]) ELSE a[2]       \* |min| = 2^(W-1) fits the unsigned word
+VDiv(a, b) ==                                                 \* b # 0
+    LET d == UDivMod(MagOf(a), MagOf(b))
+    IN [exact |-> d.r = Zero, mag |-> d.q, neg |-> IsNegNum(a) # IsNegNum(b) /\ d.q # Zero]
+(* the integer results of type t that hold the value (-1)^neg * mag: none  *)
+(* when the type cannot represent it                                       *)
+Holding(t, neg, mag) ==
+    IF t = "uint" THEN (IF neg THEN {} ELSE {<<"uint", mag>>})
+    ELSE IF neg THEN (IF Sign(mag) = 0 \/ mag = MinWord THEN {<<"int", Neg(mag)>>} ELSE {})
+    ELSE (IF Sign(mag) = 0 THEN {<<"int", mag>>} ELSE {})
+(* the results of an exact division in class cl; {} when no result type of *)
+(* the class holds the quotient: -2^(W-1) / -1, and a uint over a negative *)
+(* int whose quotient lies below -2^(W-1)                                  *)
+ExactRes(cl, neg, mag) ==
+    CASE cl = "int"   -> Holding("int", neg, mag)
+      [] cl = "uint"  -> Holding("uint", neg, mag)
+      [] cl = "chr"   -> UNION {IntRes("chr", r[2]) : r \in Holding("int", neg, mag)}
+      [] cl = "mixed" -> Holding("int", neg, mag) \cup Holding("uint", neg, mag)
+(* the name of the correctly rounded quotient in prim: by the reading of   *)
+(* the two words                                                           *)
+QName(ta, tb) ==
+    IF ta = "uint" THEN (IF tb = "uint" THEN "uq" ELSE "usq")
+    ELSE (IF tb = "uint" THEN "suq" ELSE "sq")
 
 (* the delegated primitive: prim is a sequence of <<name, x, y, r>>        *)
 FP(prim, name, x, y) ==
@@ -236,10 +265,14 @@ FP(prim, name, x, y) ==
 Judged(S) == [j |-> TRUE, acc |-> S]
 Unjudged  == [j |-> FALSE, acc |-> {}]
 
-(* the set of results the statement allows for (op a b) *)
+(* the set of results the statement allows for (op a b).  The expectation  *)
+(* does not depend on the route by which the operation is reached (program *)
+(* text, Apply on the builtin, the exported Go function): a Go panic is    *)
+(* never in the set.                                                       *)
 Expect(op, a, b, prim) ==
     IF op \in CmpOps THEN
-        IF CmpClass(a[1], b[1]) \in {"exact", "float"}
+        IF IsNaNNum(a) \/ IsNaNNum(b) THEN Judged({BoolRes(Holds(op, 2))})     \* against everything, from either side
+        ELSE IF CmpClass(a[1], b[1]) \in {"exact", "float"}
         THEN Judged({BoolRes(Holds(op, Three(a, b)))}) ELSE Unjudged
     ELSE IF op = "mod" THEN
         IF IsZeroNum(b) THEN Judged({ErrRes}) ELSE Unjudged
@@ -248,17 +281,15 @@ Expect(op, a, b, prim) ==
     IF cl = "float" THEN
         LET r == FltRes(FP(prim, op, AsFloat(a), AsFloat(b)))
         IN IF op = "/" /\ IsZeroNum(b) THEN Judged({r, ErrRes}) ELSE Judged({r})
-    ELSE IF cl = "none" THEN
-        IF op = "/" /\ IsZeroNum(b) THEN Judged({ErrRes}) ELSE Unjudged
     ELSE IF op = "+" THEN Judged(IntRes(cl, Add(a[2], b[2])))
     ELSE IF op = "-" THEN Judged(IntRes(cl, Sub(a[2], b[2])))
     ELSE IF op = "*" THEN Judged(IntRes(cl, Mul(a[2], b[2])))
     ELSE IF b[2] = Zero THEN Judged({ErrRes})
-    ELSE LET d == IF cl = "uint" THEN UDiv(a[2], b[2]) ELSE SDiv(a[2], b[2]) IN
-         IF d.ovf THEN Unjudged                       \* min / -1
-         ELSE IF d.exact THEN Judged(IntRes(cl, d.q))
-         ELSE Judged({FltRes(FP(prim, "/", AsFloat(a), AsFloat(b))),
-                      FltRes(FP(prim, IF cl = "uint" THEN "uq" ELSE "sq", a[2], b[2]))})
+    ELSE LET d == VDiv(a, b)
+             E == ExactRes(cl, d.neg, d.mag) IN
+         IF d.exact /\ E # {} THEN Judged(E)             \* exact when it divides
+         ELSE Judged({FltRes(FP(prim, "/", AsFloat(a), AsFloat(b))),   \* floating otherwise: also when the exact
+                      FltRes(FP(prim, QName(a[1], b[1]), a[2], b[2]))})  \* quotient is outside the result type (min / -1)
 
 Explained(op, a, b, prim, res) ==
     LET e == Expect(op, a, b, prim) IN ~e.j \/ NormRes(res) \in e.acc
